@@ -30,6 +30,8 @@ TRUSTED = [
     "hypotheses of the phase-level theorems",
     "float rounding of the FFT is not modelled: comparisons use 1e-9*scale (float64) and 1e-4*scale (float32)",
     "harness/pC07.py generators, canonicaliser and oracle; NumPy as arithmetic oracle (np.roll, cos/sin)",
+    "scipy.signal.correlate(a, b, 'same')[i] = sum_l a[l + i - floor(N/2)] b[l] (model xcorr_same_at), compared exactly "
+    "with SciPy on integer signals of every length 2..64 on each run",
     "extraction (Require Extraction, ExtrOcamlBasic only; Z, positive, Q kept inductive), harness/driver.ml, "
     "ocamlfind ocamlopt; a sample of the same cases is re-evaluated by the kernel (vm_compute)",
 ]
@@ -664,6 +666,182 @@ def measure_delay(ctx, st):
 
 
 # --------------------------------------------------------------------------
+# wave_shift_corrmax: exact index arithmetic against the Coq model (integer signals)
+# --------------------------------------------------------------------------
+def gen_corr_cases(ctx):
+    rng = ctx.rng
+    out = []
+    nmax = 96 if ctx.thorough() else 64
+    pulses = ([1, 3, 7, 3, 1], [2, -5, 9, 4], [5], [1, 2, 3, 4, 5, 6])
+    for N in range(2, nmax + 1):
+        reps = 3 if ctx.thorough() else 2
+        for r in range(reps):
+            pulse = list(rng.choice(pulses))
+            if len(pulse) > N:
+                pulse = pulse[:N]
+            room = N - len(pulse)
+            q = rng.randrange(0, room + 1)
+            a = [0] * q + pulse + [0] * (room - q)
+            # delays whose peak stays inside the 'same' window: 0 <= floor(N/2) - m < N
+            ok = [v for v in range(0, room + 1) if 0 <= N // 2 - (v - q) < N]
+            q2 = rng.choice(ok)
+            b = [0] * q2 + pulse + [0] * (room - q2)          # a delayed by q2 - q, nothing pushed out
+            out.append({"kind": "corr", "N": N, "a": a, "b": b, "delay": q2 - q})
+        out.append({"kind": "corr", "N": N, "a": [rng.randrange(-9, 10) for _ in range(N)],
+                    "b": [rng.randrange(-9, 10) for _ in range(N)], "delay": None})
+    return out
+
+
+def corr_check(ctx, st, cases=None):
+    import scipy.signal
+    from ibldsp import fourier, waveforms
+    cases = cases if cases is not None else gen_corr_cases(ctx)
+    inputs = [[4, c["N"]] + c["a"] + c["b"] for c in cases]
+    ex = common.Extracted(PROP, "Run")
+    outs = ex.run_many(inputs, nproc=4)
+    rc = 0
+    for c, o in zip(cases, outs):
+        N = c["N"]
+        a, b = np.array(c["a"], dtype=float), np.array(c["b"], dtype=float)
+        st.evals += 1
+        st.count("corr_len_mod4_%d" % (N % 4))
+        try:
+            cc = scipy.signal.correlate(a, b, mode="same")
+            resync, sh = waveforms.wave_shift_corrmax(a, b)
+        except Exception as e:  # noqa
+            ctx.fail("wave_shift_corrmax raised %r" % (e,), c, {"kind": "exception", "fn": "wave_shift_corrmax"})
+            rc = 1
+            continue
+        mc, mimax, mint = o[:N], o[N], o[N + 1]
+        tail = o[N + 2:]
+        if [int(round(v)) for v in cc] != mc or np.max(np.abs(cc - np.round(cc))) > 1e-9:
+            ctx.disagree("scipy.signal.correlate(a, b, 'same') differs from the model's correlation "
+                         "(zero lag at index floor(N/2))", c)
+            rc = 1
+            continue
+        if not tail or tail[0] != 1:
+            ctx.disagree("model refuses wave_shift_corrmax input", c)
+            rc = 1
+            continue
+        msh = tail[2] / tail[3]
+        if c["delay"] is not None and any(c["a"]):
+            st.nontrivial.add(("corr", N, c["delay"], tuple(c["a"])))
+            # property oracle: the delay of a delayed copy is returned (these pulses are short: the
+            # parabola through the integer autocorrelation gives the exact integer for symmetric pulses,
+            # and stays within half a sample otherwise)
+            if abs(float(sh) - c["delay"]) > 0.5:
+                ctx.fail("wave_shift_corrmax returns delay %.4f for a copy delayed by %d samples (length %d = %d mod 4)"
+                         % (float(sh), c["delay"], N, N % 4), c, {"clause": "delay", "len_mod4": N % 4})
+                rc = 1
+            if mint != c["delay"]:
+                ctx.disagree("model: floor(N/2) - argmax = %d for a copy delayed by %d" % (mint, c["delay"]), c)
+                rc = 1
+        if abs(float(sh) - msh) > 1e-9 * max(1.0, abs(msh)):
+            ctx.disagree("wave_shift_corrmax delay %.12g differs from the model's %.12g (-(ipeak - floor(N/2)))"
+                         % (float(sh), msh), c)
+            rc = 1
+        # which array is shifted, and in which direction
+        try:
+            exp = fourier.fshift(b, -float(sh))
+        except Exception:  # noqa
+            exp = None
+        if exp is not None and (np.shape(resync) != np.shape(b) or np.max(np.abs(resync - exp)) > 1e-9 * 10):
+            ctx.fail("wave_shift_corrmax: the re-aligned copy is not fshift(spike2, -delay)", c, {"clause": "realign"})
+            rc = 1
+        if c["delay"] is not None and N >= 2 and abs(msh - round(msh)) < 1e-12 and round(msh) == c["delay"]:
+            if np.max(np.abs(resync - a)) > 1e-9 * 10:
+                ctx.fail("wave_shift_corrmax: re-aligned copy differs from the reference for an exact integer delay",
+                         c, {"clause": "realign"})
+                rc = 1
+    order = sorted(range(len(inputs)), key=lambda i: len(inputs[i]))
+    pick = order[:6] + order[len(order) // 2: len(order) // 2 + 6]
+    terms = [common.flat_cases_term(i, inputs[i], outs[i]) for i in pick]
+    bad = common.coq_mismatches(PROP, HEADER, terms, shard=6) if terms else []
+    for i in bad:
+        ctx.disagree("kernel-evaluated correlation model differs from the extracted model", cases[i])
+    ctx.coverage["model_evaluations_extracted"] = ctx.coverage.get("model_evaluations_extracted", 0) + len(inputs)
+    ctx.coverage["model_evaluations_kernel"] = ctx.coverage.get("model_evaluations_kernel", 0) + len(terms)
+    return rc
+
+
+def delay_bounds(N):
+    """(delay error, residual) bounds: the stated few hundredths for ordinary waveform lengths;
+    looser for very short windows where the wavelet has to be narrow (parabolic interpolation error)."""
+    return (0.05, 0.02) if N >= 48 else (0.1, 0.05)
+
+
+def delay_sweep(ctx, st):
+    """Every waveform length (all residues mod 4, both parities) with a cheap wavelet: integer and
+    fractional applied shifts, estimated delay and re-aligned copy; then shift_waveform."""
+    from ibldsp import fourier, waveforms
+    rng = ctx.rng
+    lengths = range(24, 401) if ctx.thorough() else range(24, 141)
+    worst = {"short": 0.0, "long": 0.0, "res_short": 0.0, "res_long": 0.0}
+    for N in lengths:
+        a = min(6.0, max(2.5, N / 10))
+        smax = max(1, N // 8)
+        for dt in ("f64", "f32"):
+            sp = -ricker(N, a).astype(DT[dt])
+            shifts = [0.0, float(rng.randrange(1, smax + 1)), -float(rng.randrange(1, smax + 1)),
+                      rng.choice([0.5, -0.5, 1.5]), round(rng.uniform(-smax, smax), 3), 0.3]
+            for s in shifts:
+                desc = {"kind": "delay", "points": N, "a": a, "shift": s, "dtype": dt, "negate": True}
+                st.evals += 1
+                st.count("delay_len_mod4_%d" % (N % 4))
+                try:
+                    r, sc = waveforms.wave_shift_corrmax(sp, fourier.fshift(sp, s))
+                except Exception as e:  # noqa
+                    ctx.fail("wave_shift_corrmax raised %r" % (e,), desc, {"kind": "exception", "fn": "wave_shift_corrmax"})
+                    continue
+                st.nontrivial.add(("delay", N, dt, s))
+                be, br = delay_bounds(N)
+                e = abs(float(sc) - s)
+                rr = float(np.max(np.abs(r - sp)) / np.max(np.abs(sp)))
+                key = "long" if N >= 48 else "short"
+                worst[key] = max(worst[key], e)
+                worst["res_" + key] = max(worst["res_" + key], rr)
+                if e > be:
+                    ctx.fail("wave_shift_corrmax: estimated delay %.4f for applied shift %.4f (waveform length %d = %d "
+                             "mod 4, bound %.2f)" % (float(sc), s, N, N % 4, be), desc,
+                             {"clause": "delay", "len_mod4": N % 4})
+                elif rr > br:
+                    ctx.fail("wave_shift_corrmax does not re-align the shifted copy (residual %.3g of the peak, "
+                             "length %d)" % (rr, N), desc, {"clause": "realign", "len_mod4": N % 4})
+    ctx.measurements["delay_sweep_max_abs_error_samples"] = {"N>=48 (bound 0.05)": worst["long"],
+                                                             "24<=N<48 (bound 0.1)": worst["short"]}
+    ctx.measurements["delay_sweep_max_residual_rel_peak"] = {"N>=48 (bound 0.02)": worst["res_long"],
+                                                             "24<=N<48 (bound 0.05)": worst["res_short"]}
+    # shift_waveform on clusters (spike, trace, time) of every length
+    w1 = w2 = 0.0
+    for N in (range(40, 201) if ctx.thorough() else range(40, 104)):
+        a = min(6.0, max(4.0, N / 10))
+        sp = -ricker(N, a)
+        shifts = np.array([-1.5, -1.0, 0.0, round(rng.uniform(-2, 2), 3), 1.0, 2.25, 0.0])
+        desc = {"kind": "cluster", "points": N, "a": a, "shifts": shifts.tolist()}
+        st.evals += 1
+        st.count("shift_waveform_len_mod4_%d" % (N % 4))
+        try:
+            wav = np.stack([np.stack([fourier.fshift(sp * g, s) for g in (0.3, 1.0, 0.3)]) for s in shifts])
+            out, applied = waveforms.shift_waveform(wav)
+        except Exception as e:  # noqa
+            ctx.fail("shift_waveform raised %r" % (e,), desc, {"kind": "exception", "fn": "shift_waveform"})
+            continue
+        st.nontrivial.add(("cluster", N))
+        if out.shape != wav.shape or np.shape(applied) != (len(shifts),):
+            ctx.fail("shift_waveform: output shapes %s %s" % (out.shape, np.shape(applied)), desc, {"clause": "shape_dtype"})
+            continue
+        # the template is the median waveform = (nearly) the unshifted one: spike i must be moved by -shift_i
+        e1 = float(np.max(np.abs((applied - applied[2]) + (shifts - shifts[2]))))
+        e2 = float(np.max(np.abs(out - out[2][None])) / np.max(np.abs(sp)))
+        w1, w2 = max(w1, e1), max(w2, e2)
+        if e1 > 0.05 or e2 > 0.02:
+            ctx.fail("shift_waveform does not re-align a cluster of shifted copies (length %d = %d mod 4: shift error "
+                     "%.3g sample, residual %.3g of the peak)" % (N, N % 4, e1, e2), desc,
+                     {"clause": "realign", "len_mod4": N % 4})
+    ctx.measurements["shift_waveform_sweep"] = {"max_shift_error_samples (bound 0.05)": w1,
+                                                "max_residual_rel_peak (bound 0.02)": w2}
+
+
 def roll_correspondence(ctx, st):
     """np.roll (the oracle's reference) against the model's roll_list (the theorems' reference): exact."""
     rng = ctx.rng
@@ -700,6 +878,8 @@ def run(ctx):
         oracle_n_light(ctx, st, n)
     st.dist["n_values_light"] = len(light)
     measure_delay(ctx, st)
+    corr_check(ctx, st)
+    delay_sweep(ctx, st)
     samples = [{"shape": c["shape"], "axis": c["axis"], "dtype": c["dtype"], "x": c["x"][:8], "s": c["s"]}
                for c in kept[:: max(1, len(kept) // 6)]]
     st.dist["n_values_oracle"] = len(ns)
@@ -773,7 +953,43 @@ def replay(ctx, data):
                 if "vertex" in inp:
                     print("exact parabola with vertex", inp["vertex"])
             return 1
+        if kind == "corr":
+            st = Stats()
+            c2 = common.Ctx(PROP, ctx.tier, ctx.seed)
+            c2.rng = ctx.rng
+            a, b = np.array(inp["a"], dtype=float), np.array(inp["b"], dtype=float)
+            print("correlate(a, b, 'same') =", scipy.signal.correlate(a, b, mode="same").tolist())
+            print("wave_shift_corrmax(a, b) delay =", float(waveforms.wave_shift_corrmax(a, b)[1]),
+                  " (b is a delayed by %s)" % inp.get("delay"))
+            o = common.Extracted(PROP, "Run").run_many([[4, inp["N"]] + inp["a"] + inp["b"]], nproc=1)[0]
+            N = inp["N"]
+            print("model: correlation", o[:N], "argmax", o[N], "floor(N/2)-argmax", o[N + 1],
+                  "delay", (o[N + 4] / o[N + 5]) if o[N + 2] == 1 else None)
+            rc = corr_check(c2, st, [inp])
+            for f in c2.oracle_failures + c2.disagreements:
+                print("FAILS:", f["what"])
+            return 1 if (rc or c2.oracle_failures or c2.disagreements) else 0
+        if kind == "cluster":
+            sp = -ricker(inp["points"], inp["a"])
+            shifts = np.array(inp["shifts"])
+            wav = np.stack([np.stack([fourier.fshift(sp * g, s) for g in (0.3, 1.0, 0.3)]) for s in shifts])
+            out, applied = waveforms.shift_waveform(wav)
+            e1 = float(np.max(np.abs((applied - applied[2]) + (shifts - shifts[2]))))
+            e2 = float(np.max(np.abs(out - out[2][None])) / np.max(np.abs(sp)))
+            print("shifts of the copies:", shifts.tolist(), "\nshifts applied by shift_waveform:", applied.tolist())
+            print("relative shift error %.3g sample, residual %.3g of the peak" % (e1, e2))
+            return 1 if e1 > 0.05 or e2 > 0.02 else 0
         if kind == "delay":
+            sp = ricker(inp["points"], inp["a"])
+            if inp.get("negate"):
+                sp = -sp.astype(DT[inp.get("dtype", "f64")])
+            be, br = delay_bounds(inp["points"]) if inp.get("negate") else (0.05, 0.02)
+            r, sc = waveforms.wave_shift_corrmax(sp, fourier.fshift(sp, inp["shift"]))
+            print("applied shift %r, estimated %r, re-alignment residual %.3g of the peak (length %d = %d mod 4)" % (
+                inp["shift"], float(sc), float(np.max(np.abs(r - sp)) / np.max(np.abs(sp))), inp["points"],
+                inp["points"] % 4))
+            return 1 if abs(float(sc) - inp["shift"]) > be or np.max(np.abs(r - sp)) > br * np.max(np.abs(sp)) else 0
+        if kind == "delay_old":
             sp = ricker(inp["points"], inp["a"])
             r, sc = waveforms.wave_shift_corrmax(sp, fourier.fshift(sp, inp["shift"]))
             print("applied shift %r, estimated %r, re-alignment residual %.3g of the peak" % (
